@@ -10,6 +10,30 @@ def run(ctx):
     else:
         txncommon.run(ctx, 240, "plain,cancel,stall,b2,drop,close,gen,plain", par=4, passes=3)
     secs1(ctx)
+    cold(ctx)
+
+
+def cold(ctx):
+    """the reconnecting gauge on a cold start (Open while the peer refuses 0, 1, 2, 4 dials)"""
+    import os
+    obs = os.path.join(ctx.tmp, "cold.ndjson")
+    ctx.run_vh(["cold", "--out", obs, "--reps", 2 if ctx.quick else 8], timeout=900)
+    res = common.oracle_pass(ctx, obs, "OracleGauge", nchunks=1, timeout=600)
+    faults, groups = 0, {}
+    for (ln, text, why) in res["rejections"]:
+        d = json.loads(text)
+        if why == "HarnessFault":
+            faults += 1
+            continue
+        g = groups.setdefault("c20:cold:%s" % why, dict(n=0, first=d))
+        g["n"] += 1
+    for sig, g in sorted(groups.items()):
+        ctx.violation("reconnecting gauge on a cold start (%s), %d scenario(s): %s" % (sig, g["n"], common.short(g["first"], 500)),
+                      dict(binding="B2 scripted peer + OracleGauge", signature=sig, occurrences=g["n"], observation=g["first"]))
+    if faults > res["lines"] // 2:
+        raise common.Inconclusive("cold-start scenarios could not be set up (%d of %d)" % (faults, res["lines"]))
+    ctx.cov["cold_start_gauge_scenarios"] = res["lines"] - faults
+    ctx.cov["traces_validated_against_impl"] = ctx.cov.get("traces_validated_against_impl", 0) + res["lines"] - faults
 
 
 def secs1(ctx):
